@@ -668,7 +668,7 @@ func (p *Program) c11DuplicateCheck(fn *ssa.Function) (problems, unknown, notes 
 		}
 	}
 	// ok-edge adds a violation, !ok-edge inserts the key
-	okv := pfExtractOf(look, 1)
+	okv := c11ExtractOf(look, 1)
 	var tB, fB *ssa.BasicBlock
 	for _, b := range fn.Blocks {
 		if iff, isIf := b.Instrs[len(b.Instrs)-1].(*ssa.If); isIf && okv != nil {
@@ -728,7 +728,7 @@ func (p *Program) c11DuplicateCheck(fn *ssa.Function) (problems, unknown, notes 
 	return problems, nil, notes
 }
 
-func pfExtractOf(v ssa.Value, idx int) ssa.Value {
+func c11ExtractOf(v ssa.Value, idx int) ssa.Value {
 	for _, r := range referrersOf(v) {
 		if e, ok := r.(*ssa.Extract); ok && e.Index == idx {
 			return e
